@@ -38,7 +38,13 @@ func levelClass(l slog.Level) string {
 	return "builtin"
 }
 
+// panicky panics while being formatted; the application recovers. The record is lost, later records must not care.
+type panicky struct{}
+
+func (panicky) String() string { panic("value that panics while being formatted") }
+
 type c09probe struct {
+	minW, tagW int
 	f    Format
 	name string
 	lvl  slog.Level
@@ -56,6 +62,10 @@ func c09hist(c *Ctx) {
 	so := gen.StrOpt{HostilePc: 30, Long: true}
 	o := gen.Options{Str: so, MaxDepth: 3}
 	emit := func(p c09probe) []byte {
+		if p.minW > 0 {
+			slog.SetMessageMinimalWidth(p.minW)
+			slog.SetLevelOutputWidth(p.tagW)
+		}
 		lg := newRoot(p.name, p.f, w, slog.AlwaysLevel)
 		as := attrsOf(p.kvs)
 		if p.spy {
@@ -69,7 +79,10 @@ func c09hist(c *Ctx) {
 		return b
 	}
 	genProbe := func(r *gen.R) c09probe {
-		p := c09probe{f: Format(r.Intn(3)), ts: r.Time(), spy: true}
+		p := c09probe{f: Format(r.Intn(3)), ts: r.Time(), spy: true, minW: 36, tagW: 3}
+		if r.P(35) { // the presentation settings are inputs of the call too
+			p.minW, p.tagW = r.Range(16, 170), r.Range(1, 5)
+		}
 		p.name = gen.Pick(r, []string{"", "app", "svc.db"})
 		p.lvl = gen.Pick(r, colorLevels)
 		rc := genTextCase(r, so, o)
@@ -89,6 +102,8 @@ func c09hist(c *Ctx) {
 	c.Each(func(idx int, r *gen.R) {
 		restore := withFlags(0, 0)
 		defer restore()
+		defer slog.SetMessageMinimalWidth(36)
+		defer slog.SetLevelOutputWidth(3)
 		if r.Bool() {
 			slog.AddFlags(slog.Lcaller)
 		} else {
@@ -135,6 +150,20 @@ func c09hist(c *Ctx) {
 						}
 					}
 					c.R.Add("history_records_under_other_flags", 1)
+				}
+				if hr.P(8) {
+					// a record whose value panics while being formatted (recovered by the caller)
+					func() {
+						defer func() { _ = recover() }()
+						lgp := newRoot("p", q.f, w, slog.AlwaysLevel)
+						lgp.WriteThru(bg, q.lvl, q.ts, thePC, "doomed", slog.Attrs{slog.NewAttr("req", slog.NewGroupedAttrEasy("inner", "user", panicky{}))})
+					}()
+					func() {
+						defer func() { _ = recover() }()
+						lgp := newRoot("p", q.f, w, slog.AlwaysLevel)
+						lgp.WriteThru(bg, q.lvl, q.ts, thePC, "doomed", slog.Attrs{slog.NewGroupedAttrEasy("grp", "user", panicky{})})
+					}()
+					c.R.Add("history_records_with_a_panicking_value", 1)
 				}
 				if hr.P(15) {
 					var wg sync.WaitGroup
